@@ -190,7 +190,9 @@ pub fn one_run<U: CircuitUni>(ctx: &Ctx, idx: u64, out: &mut RunOut) {
         // violating variant
         if v.is_none() {
             let mut p2 = p.clone();
-            if gprog::perturb_input::<U::BF, U::EF>(&mut p2, &mut rng).is_some() {
+            // violate the source: change an input, or (one case in four) a constant
+            let perturbed = if rng.chance(1, 4) { gprog::perturb_const::<U::BF, U::EF>(&mut p2, &mut rng).is_some() } else { gprog::perturb_input::<U::BF, U::EF>(&mut p2, &mut rng).is_some() };
+            if perturbed {
                 out.evals += 1;
                 out.count("perturbed_inputs");
                 if let Some(x) = check_program::<U>(&p2, opts, &hs[..1], true, out) {
@@ -272,16 +274,10 @@ pub fn replay(ctx: &Ctx, body: &serde_json::Value) -> i32 {
     let hs: Vec<u64> = d["hash_seeds"].as_array().map(|a| a.iter().filter_map(|x| x.as_u64()).collect()).unwrap_or_default();
     let uni = d["universe"].as_str().unwrap_or("U-KB4");
     if ctx.args.contains_key("dump") {
-        match uni {
-            "U-BB4" => dump::<crate::uni::Bb4>(&p, hs[0]),
-            _ => dump::<crate::uni::Kb4>(&p, hs[0]),
-        }
+        crate::with_uni!(uni, U, dump::<U>(&p, hs[0]));
     }
     let mut tmp = RunOut::default();
-    let r = match uni {
-        "U-BB4" => check_program::<crate::uni::Bb4>(&p, BuilderOpts::default(), &hs, true, &mut tmp),
-        _ => check_program::<crate::uni::Kb4>(&p, BuilderOpts::default(), &hs, true, &mut tmp),
-    };
+    let r = crate::with_uni!(uni, U, check_program::<U>(&p, BuilderOpts::default(), &hs, true, &mut tmp));
     match r {
         Some((k, c)) => {
             println!("VIOLATION property={} replay={}", ctx.prop, ctx.replay.as_ref().unwrap().display());
@@ -309,11 +305,7 @@ pub fn main(ctx: &Ctx) -> i32 {
     let runs: u64 = ctx.tier.pick(3000, 100000);
     let res = crate::core::pool::run_jobs(runs, |idx| {
         let mut out = RunOut::default();
-        if idx % 2 == 0 {
-            one_run::<crate::uni::Kb4>(ctx, idx, &mut out);
-        } else {
-            one_run::<crate::uni::Bb4>(ctx, idx, &mut out);
-        }
+        crate::with_uni!(crate::uni::uni_of(idx), U, one_run::<U>(ctx, idx, &mut out));
         let mut d = crate::core::prng::Digest::new();
         d.u64(out.evals);
         for (k, v) in &out.counters {
@@ -340,7 +332,7 @@ pub fn main(ctx: &Ctx) -> i32 {
         runs,
         Spec {
             level: "exploration",
-            rule: "seeded builder-call histories (G-prog: consts, public/private inputs, add/sub/mul/div, mul_add, horner steps, bool checks, select, connect/assert_zero shapes, mul_many, inner_product, exp_pow2, bit and coefficient decompositions, ALU recomposition) replayed into the real CircuitBuilder under 3 hash-order seeds each and into the reference interpreter; one perturbed-input variant per program. distinct = distinct call-kind sequences.",
+            rule: "seeded builder-call histories (G-prog: consts, public/private inputs, add/sub/mul/div, mul_add, horner steps, bool checks, select, connect/assert_zero shapes, mul_many, inner_product, exp_pow2, bit and coefficient decompositions, ALU recomposition) replayed into the real CircuitBuilder (seven universes: binomial D2/D4/D5/D8, quintic, base field) under 3 hash-order seeds each and into the reference interpreter; one perturbed variant per program (an input changed, or one constant changed). distinct = distinct call-kind sequences.",
             exhaustive: false,
             assumptions: vec![
                 "reference interpreter (gprog::ref_eval) is the specification of expression values".into(),
@@ -348,7 +340,7 @@ pub fn main(ctx: &Ctx) -> i32 {
             ],
             components_real: vec!["CircuitBuilder", "ExpressionLowerer", "Optimizer", "CircuitRunner", "BatchStarkProver (only for unsat inputs whose run succeeds)"],
             components_stub: vec![],
-            not_covered: vec!["D=1, D=2, D=5 circuits", "Poseidon NPO calls inside G-prog"],
+            not_covered: vec!["Poseidon NPO calls inside G-prog"],
             extra: json!({}),
         },
     )
